@@ -181,6 +181,53 @@ func (d *DenormStats) Total() int {
 	return d.PaddedVarints + d.SplitMessages + d.Reordered + d.NonContiguous + d.Repacked + d.Duplicated + d.WrongWireType + d.EmptyPacked
 }
 
+// ManyRuns rewrites m (at any depth where a message holds two or more lazy singular message fields) so
+// that every such field arrives in k separate occurrences, the occurrences of the different fields taking
+// turns and the higher field numbers first: what a receiver sees when a sender concatenates k serialized
+// deltas. Each field's content is cut into consecutive pieces (possibly empty), so merging the occurrences
+// in wire order gives the original content. It reports how many messages were rewritten.
+func ManyRuns(r *sim.Rng, m *WMsg, k int) int {
+	n := 0
+	var lazy, rest []*WNode
+	for _, nd := range m.Fields {
+		if nd.Sub != nil {
+			n += ManyRuns(r, nd.Sub, k)
+		}
+		if nd.Group != nil {
+			n += ManyRuns(r, nd.Group, k)
+		}
+		if nd.FD != nil && IsLazy(nd.FD) && !nd.FD.IsList() && !nd.FD.IsMap() && nd.Sub != nil {
+			lazy = append(lazy, nd)
+		} else {
+			rest = append(rest, nd)
+		}
+	}
+	// one occurrence per lazy field to start from (an earlier rewrite may have split one already)
+	seen := map[protowire.Number]bool{}
+	for _, nd := range lazy {
+		if seen[nd.Num] {
+			return n
+		}
+		seen[nd.Num] = true
+	}
+	if len(lazy) < 2 {
+		return n
+	}
+	sort.Slice(lazy, func(i, j int) bool { return lazy[i].Num > lazy[j].Num })
+	out := rest
+	for i := 0; i < k; i++ {
+		for _, nd := range lazy {
+			fs := nd.Sub.Fields
+			lo, hi := len(fs)*i/k, len(fs)*(i+1)/k
+			piece := *nd
+			piece.Sub = &WMsg{MD: nd.Sub.MD, Fields: fs[lo:hi:hi]}
+			out = append(out, &piece)
+		}
+	}
+	m.Fields = out
+	return n + 1
+}
+
 // Denormalise rewrites m in place into a legal but non-minimal encoding of
 // the same content. intensity is per mille per opportunity.
 func Denormalise(r *sim.Rng, m *WMsg, intensity int, st *DenormStats) {
